@@ -225,6 +225,57 @@ func runProp(prop string) int {
 			}
 		}
 	}
+	// 2b. modularity: every caller (in the loaded packages) of a function whose contract
+	// for this property has a precondition is verified too, so that the precondition is
+	// demanded at every call site and not only inside functions that happen to be listed.
+	{
+		need := map[string]bool{}
+		for k, con := range P.CS.Funcs {
+			if hasProp(con.Props, prop) && len(con.Requires) > 0 && con.Kind == "func" {
+				need[k] = true
+			}
+		}
+		if len(need) > 0 {
+			var fns []*ssa.Function
+			for _, sp := range P.SSAPkgs {
+				for f := range allFuncsOfPkg(P, sp) {
+					fns = append(fns, f)
+				}
+			}
+			sort.Slice(fns, func(i, j int) bool { return fns[i].String() < fns[j].String() })
+			for _, f := range fns {
+				if _, ok := todo[f]; ok || len(f.Blocks) == 0 {
+					continue
+				}
+				calls := false
+				for _, b := range f.Blocks {
+					for _, in := range b.Instrs {
+						if ci, ok := in.(ssa.CallInstruction); ok {
+							if callee := ci.Common().StaticCallee(); callee != nil {
+								k, _, _ := fnIDs(callee)
+								if o := callee.Origin(); o != nil {
+									k, _, _ = fnIDs(o)
+								}
+								if need[k] {
+									calls = true
+								}
+							}
+						}
+					}
+				}
+				if !calls {
+					continue
+				}
+				key, _, _ := fnIDs(f)
+				con := P.CS.Funcs[key]
+				if con == nil {
+					con = &Contract{Kind: "func", Name: f.RelString(f.Pkg.Pkg), Pkg: f.Pkg.Pkg.Path(), Mode: "bv", LoopInv: map[int][]*Clause{}, LoopDec: map[int]*Clause{}, LoopMod: map[int][]string{}, Opts: map[string]string{}}
+				}
+				todo[f] = con
+				order = append(order, f)
+			}
+		}
+	}
 	ruleHits := map[string]int{}
 	definesUsed := map[string]bool{}
 	for _, fn := range order {
